@@ -61,7 +61,7 @@ SIGS_ORDER = ["10e", "20e", "21e", "22e", "10n", "20n", "11e", "12e", "11n", "12
 
 # ---- configuration --------------------------------------------------------------------------
 def class_cfg(sigs, *, outer=None, inner=None, init="ClassInit", ctxs="NoTerms", max_ops=1, max_depth=3, nest_anytime=False,
-              dev="DevNone", check=True, vary=True, build_d2=True, leafs=("x", "y", "z")):
+              dev="DevNone", check=True, vary=True, build_d2=True, leafs=("x", "y", "z"), full_quantification=False):
     """sigs: signatures present ('10e', '21e', ...).  Slots 'A'+sig (outer role) and 'B'+sig (inner role)."""
     sigs = sorted(sigs)
     a_slots = ["A" + s for s in sigs]
@@ -102,6 +102,10 @@ CHECK_DEADLOCK FALSE
 """
     if check:
         cfg += "INVARIANT InvLaws\nINVARIANT InvWellFormed\nINVARIANT InvFree\nPROPERTY StutterProp\nPROPERTY FreeProp\n"
+    if full_quantification:
+        from .expr_pool import FULL_QUANTIFICATION
+
+        cfg += FULL_QUANTIFICATION
     return cfg
 
 
@@ -484,6 +488,12 @@ class ClassReplayer:
                 if act in ("Xreplace", "Subs") and self.c14():
                     self.diamond(act, args, real, got, asg, case)
                 return True
+            proj = asg.project(got)
+            if proj is not None and asg.canon(proj) == asg.canon(nxt):
+                # the model part of the object is the specification state; only what a helper class derives from its
+                # arguments at construction (e.g. slice bounds normalised with the parent's shape) differs: ill-typed nesting
+                self.derived_part_differs = getattr(self, "derived_part_differs", 0) + 1
+                return False
             if self.c14():
                 pat = mismatch_pattern(got, want)
                 sig = f"unevaluated.{op}:{pat}" + (f":{cname}" if pat in ("arguments-differ", "equal-args-but-unequal") else "")
